@@ -41,6 +41,7 @@ pub fn build(n: usize, mmax: usize) -> (Generator, RefState) {
     g.allow_ext_opcodes = kani::any();
     g.allow_buffer_opcodes = kani::any();
     g.state.proto_emitted = kani::any();
+    configure_mode(&mut g);
     let mut rs = RefState::empty();
     let alias_at: usize = kani::any(); // slot alias_at (>= 1) is a second handle to the cell below it
     vk_unroll!(i in [0, 1, 2, 3, 4, 5, 6, 7] {
@@ -88,6 +89,33 @@ pub fn build(n: usize, mmax: usize) -> (Generator, RefState) {
     (g, rs)
 }
 
+/// Mode and mutator registration are part of the configuration a guard may (wrongly) depend on: the generator is
+/// either in safe mode with the complete safe set registered (every mutator created safe — what `--mutators all`
+/// builds; `is_unsafe()` of the inert TypeConfusion is still true), or in unsafe mode with the unsafe set, or has
+/// no mutators.  `safe_mode(g)` is the condition under which C01/C03 apply.
+pub fn configure_mode(g: &mut Generator) {
+    use crate::mutators::*;
+    let mode: u8 = kani::any();
+    kani::assume(mode <= 2);
+    if mode == 1 {
+        g.mutators.push(Box::new(BitFlipMutator));
+        g.mutators.push(Box::new(BoundaryMutator));
+        g.mutators.push(Box::new(OffByOneMutator));
+        g.mutators.push(Box::new(StringLengthMutator));
+        g.mutators.push(Box::new(CharacterMutator));
+        g.mutators.push(Box::new(MemoIndexMutator::new(false)));
+        g.mutators.push(Box::new(TypeConfusionMutator::new(false)));
+    } else if mode == 2 {
+        g.unsafe_mutations = true;
+        g.mutators.push(Box::new(MemoIndexMutator::new(true)));
+        g.mutators.push(Box::new(TypeConfusionMutator::new(true)));
+    }
+    g.mutation_rate = 1.0;
+}
+pub fn safe_mode(g: &Generator) -> bool {
+    !g.unsafe_mutations
+}
+
 /// "MARK-slice" shape: [x, MARK, i_1 .. i_k] with x any of the 18 variants and each i_j one of NONE / TUPLE /
 /// CALLABLE / MARK — reaches slice lengths (parity, emptiness) that the all-kinds instances only reach at depths
 /// that cost minutes.
@@ -97,6 +125,7 @@ pub fn build_shaped(k: usize) -> (Generator, RefState) {
     g.allow_ext_opcodes = kani::any();
     g.allow_buffer_opcodes = kani::any();
     g.state.proto_emitted = kani::any();
+    configure_mode(&mut g);
     let mut rs = RefState::empty();
     let c: u8 = kani::any();
     kani::assume(c < N_VARIANTS);
@@ -133,7 +162,7 @@ macro_rules! guard_shape {
             let op = OpcodeKind::$op;
             let i = ref_index(op);
             let e = g.can_emit(op);
-            if e {
+            if e && safe_mode(&g) {
                 assert!(pre(i, &rs, 0), "enabled opcode violates the reference stack/memo discipline");
                 assert!(kinds_pre(i, &rs), "enabled opcode gets an operand of the wrong kind");
             }
@@ -159,8 +188,10 @@ macro_rules! guard_h {
             if e {
                 // memo argument: PUT-family emits the next free index (family MEMO-PUT), GET-family an existing key
                 let arg = if i == I_GET || i == I_BINGET || i == I_LONG_BINGET { 0 } else { rs.m };
-                assert!(pre(i, &rs, arg), "enabled opcode violates the reference stack/memo discipline");
-                assert!(kinds_pre(i, &rs), "enabled opcode gets an operand of the wrong kind");
+                if safe_mode(&g) {
+                    assert!(pre(i, &rs, arg), "enabled opcode violates the reference stack/memo discipline");
+                    assert!(kinds_pre(i, &rs), "enabled opcode gets an operand of the wrong kind");
+                }
                 if i == I_EXT1 || i == I_EXT2 || i == I_EXT4 {
                     assert!(g.allow_ext_opcodes, "EXT opcode enabled without the opt-in flag");
                 }
